@@ -21,7 +21,7 @@ RULE = (
     "'did not return' (counted, not judged); non-trivial = the operation returned and the input has >=2 plates or >=2 samples"
 )
 ASSUMPTIONS = ["per-plate hold-out count: ceil of the float product, of the exact rational product, and of the decimal reading of the fraction are all accepted"]
-REQUIRED = {"holdouts_on_integer_masks": {"quick": 80, "thorough": 1200}, "cli_prepare_runs": {"quick": 12, "thorough": 150}, "cli_prepare_fraction_0": {"quick": 6, "thorough": 14}, "generator_returns": {"quick": 600, "thorough": 9000}, "smoother_returns": {"quick": 1000, "thorough": 15000}, "holdout_returns": {"quick": 500, "thorough": 7000}, "input_unchanged_checks": {"quick": 3500, "thorough": 50000}, "ops_after_in_place_reveal": {"quick": 150, "thorough": 2500}}
+REQUIRED = {"returned_screens_changed_in_place": {"quick": 150, "thorough": 3000}, "holdouts_on_integer_masks": {"quick": 80, "thorough": 1200}, "cli_prepare_runs": {"quick": 12, "thorough": 150}, "cli_prepare_fraction_0": {"quick": 6, "thorough": 14}, "generator_returns": {"quick": 600, "thorough": 9000}, "smoother_returns": {"quick": 1000, "thorough": 15000}, "holdout_returns": {"quick": 500, "thorough": 7000}, "input_unchanged_checks": {"quick": 3500, "thorough": 50000}, "ops_after_in_place_reveal": {"quick": 150, "thorough": 2500}}
 N_OPS = {"quick": 4000, "thorough": 56000}
 
 
@@ -203,6 +203,29 @@ def run_shard(rec, tier, seed, shard, nshards):
             rec.count("holdout_returns")
             train, hold = res
             check_holdout(rec, name, params["fraction"], screen, train, hold, w)
+            # the two screens are the caller's own: recording results in the training screen (or merging two of its
+            # plates) is what the caller does next, and the screen that was split is not touched by that
+            for part_name, part in (("training", train), ("hold-out", hold)):
+                try:
+                    un_ = [p_ for p_ in part.plates if not p_.is_observed]
+                    did = []
+                    if un_:
+                        p_ = un_[int(rng.integers(len(un_)))]
+                        part.set_observed(np.asarray(p_.selection_vector).copy(), rng.random(p_.size) + 7.0)
+                        did.append("set_observed")
+                    pls_ = part.plates
+                    if len(pls_) >= 2:
+                        pls_[0].merge(pls_[-1])
+                        did.append("merge")
+                except Exception as e:
+                    rec.did_not_return("change-returned-" + part_name, e)
+                    continue
+                if did:
+                    rec.count("returned_screens_changed_in_place")
+                    rec.check(RC.screen_fingerprint(kit, screen) == before, "C11/holdout/result-shares-state-with-input", lambda: "%s%r: after %s on the returned %s screen the screen that was split has changed" % (name, params, "+".join(did), part_name), w)
+                    if RC.screen_fingerprint(kit, screen) != before:
+                        after = None  # the input is spoilt for the following operations
+                        break
         else:
             rec.count(kind + "_returns")
             check_generator_or_smoother(rec, kind, name, params, screen, res, w)
